@@ -335,6 +335,7 @@ func leadsToLoopNotReturn(b *ssa.BasicBlock) bool {
 func C18(c *Ctx) {
 	c.Note("exclusion of overlapping [start, commit] intervals across regions; idempotence of re-applied raft log entries as a history property; timestamps supplied by clients being unique")
 	commitAllOrNothing(c, "K1.commit-refused-before-any-write")
+	committedLockLeftover(c, "K1.interrupted-commit-is-committed")
 	const r1 = "K8.rollback-record-excluded"
 	c.Rule(r1, "every use of Reader.GetWriteByStartTs (Commit, commitKey, rollbackKey, CheckTxnStatus) compares the found write's Kind with Mutation_Rollback before treating it as evidence of a commit (before any path that reports success / a commit version)")
 	ops := opConsts(c)
@@ -1472,5 +1473,61 @@ func prewriteGuards(c *Ctx, rule string, fn *ssa.Function, wr Matcher) {
 		}
 		post, m := CutReach(fn, holderCall.(ssa.Instruction), w.(ssa.Instruction), nil, cut)
 		c.Decide(!pre && !post, rule, key(fn, fmt.Sprintf("versioned write<-ok(MostRecentWrite)[%d]", i+1)), w.Pos(), n+m, "writes happen only when the checking helper answered nil", "a write is reachable without (or against) the answer of the conflict-checking helper")
+	}
+}
+
+// committedLockLeftover (C18): commitKey writes the commit record and then removes the lock; a
+// crash between the two leaves both.  The transaction is committed: (a) a repeated commit must
+// remove the leftover lock on every path that finds the commit record, and (b) CheckTxnStatus
+// must consult the write column before it lets an expired lock decide (rollback / status) –
+// every rollbackKey call of CheckTxnStatus is preceded by Reader.GetWriteByStartTs.
+func committedLockLeftover(c *Ctx, rule string) {
+	c.Rule(rule, "percolator.commitKey removes the lock on every success path that found an existing commit record; every rollbackKey call in percolator.CheckTxnStatus (also in its helpers) is preceded by a Reader.GetWriteByStartTs lookup, so a lock left behind by an interrupted commit is reported as committed, not rolled back")
+	cfLock := cfValue(c, "CFLock")
+	if fn := c.Fn("percolator", "commitKey"); fn != nil {
+		dels := effectSites(c, fn, isLockDeleteOf(cfLock), 1)
+		gws := Calls(fn, false, Named("percolator.(*Reader).GetWriteByStartTs"))
+		// success returns reachable on the `write != nil` edge
+		bad, n := 0, 0
+		for _, g := range gws {
+			var wv ssa.Value
+			for _, r := range *g.Value().Referrers() {
+				if ex, ok := r.(*ssa.Extract); ok && ex.Index == 0 {
+					wv = ex
+				}
+			}
+			for _, e := range NilEdges(fn, map[ssa.Value]bool{wv: true}) {
+				for _, r := range Returns(fn) {
+					if !IsNilConst(RetVal(r, 0)) {
+						continue
+					}
+					n++
+					if reach, _ := reachFromBlock(fn, e.NonNil[1], r, instrs(dels)); reach {
+						bad++
+					}
+				}
+			}
+		}
+		c.Decide(n > 0 && bad == 0, rule, key(fn, "existing-commit-record→lock-removed"), fn.Pos(), n+1, "a repeated commit removes the lock an interrupted commit left behind", "commitKey can report success for a key that already has its commit record without removing the lock: after a crash between the commit record and the lock removal the lock stays forever (readers keep seeing the key as locked)")
+	}
+	if fn := c.Fn("percolator", "CheckTxnStatus"); fn != nil {
+		rbM := Named("percolator.rollbackKey")
+		gwM := Named("percolator.(*Reader).GetWriteByStartTs")
+		i := 0
+		for _, site := range effectSites(c, fn, func(ci ssa.CallInstruction) bool { return rbM(ci.Common()) }, 1) {
+			g, rbs := fn, []ssa.CallInstruction{site}
+			if !rbM(site.Common()) {
+				g = StaticFn(site.Common())
+				rbs = Calls(g, false, rbM)
+			}
+			for _, rb := range rbs {
+				i++
+				ok, n := MustPrecede(g, rb.(ssa.Instruction), instrs(Calls(g, false, gwM)))
+				if !ok && g != fn {
+					ok, n = MustPrecede(fn, site.(ssa.Instruction), instrs(Calls(fn, false, gwM)))
+				}
+				c.Decide(ok, rule, key(fn, fmt.Sprintf("rollbackKey[%d]<-GetWriteByStartTs", i)), rb.Pos(), n, "the write column is consulted before a lock decides the transaction's fate", "CheckTxnStatus rolls back on an expired lock without looking at the write column: a lock left by a commit interrupted between its two writes makes it answer TTLExpireRollback (commit_version 0) for a committed transaction, and the caller then rolls back the secondaries")
+			}
+		}
 	}
 }
